@@ -699,6 +699,8 @@ def selftest():
     V = []
     b = lambda name, file, old, new, rule, expect="", **kw: V.append(dict(name=name, kind="break", file=file, old=old, new=new, rule=rule, expect=expect, **kw))
     n = lambda name, file, old, new, **kw: V.append(dict(name=name, kind="neutral", file=file, old=old, new=new, **kw))
+    b("tolerance handed to the trimming helper in the position of its overlap flag", CELLS, "            supercell,\n            symprec=self._symprec,\n            positions_to_reorder=positions_to_reorder,", "            supercell,\n            self._symprec,\n            positions_to_reorder=positions_to_reorder,", "R04y.argname", "_create_primitive_cell")
+    n("overlap flag and tolerance both positional", CELLS, "            supercell,\n            symprec=self._symprec,\n            positions_to_reorder=positions_to_reorder,", "            supercell,\n            True,\n            self._symprec,\n            positions_to_reorder=positions_to_reorder,")
     b("guessed primitive matrix assembled from the transposes", CELLS, "    return np.array(np.dot(np.linalg.inv(tmat), pmat), dtype=\"double\", order=\"C\")", "    return np.array(np.dot(pmat.T, np.linalg.inv(tmat)).T, dtype=\"double\", order=\"C\")", "R04n", "guess_primitive_matrix")
     n("guessed primitive matrix through the transposed product, correctly", CELLS, "    return np.array(np.dot(np.linalg.inv(tmat), pmat), dtype=\"double\", order=\"C\")", "    return np.array(np.dot(pmat.T, np.linalg.inv(tmat).T).T, dtype=\"double\", order=\"C\")")
     b("guessed primitive matrix returned transposed", CELLS, "    return np.array(np.dot(np.linalg.inv(tmat), pmat), dtype=\"double\", order=\"C\")", "    return np.array(np.dot(pmat.T, np.linalg.inv(tmat).T), dtype=\"double\", order=\"C\")", "R04n", "returns")
